@@ -304,7 +304,12 @@ def table_oracle(t, d, kw):
             out.append(("C18:rho-below-rhoend|alpha1%s1/250|%s" % ("<" if a1 < 1 / 250 else ">=", ctxt),
                         "row %d: rho=%r < rhoend*scale^nruns=%r" % (i, rho[i], rhoend_k[i])))
     if np.any(delta > 1e10):
-        out.append(("C18:delta-above-1e10|" + ("regu" if d.get("regu") else "no-regu") + "|" + ctxt, "delta=%r" % float(delta.max())))
+        if rhobeg > 1e10:
+            # the cap is applied where delta is INCREASED; a starting radius above it (rhobeg > 1e10, e.g. the default 0.1 max|x0|
+            # for |x0| ~ 1e12) is never capped - the hypothesis `delta <= 1e10` of C18_delta_cap_partial fails at the first row
+            out.append(("C18:delta-above-1e10|rhobeg-above-1e10", "delta=%r with rhobeg=%r" % (float(delta.max()), rhobeg)))
+        else:
+            out.append(("C18:delta-above-1e10|" + ("regu" if d.get("regu") else "no-regu") + "|" + ctxt, "delta=%r" % float(delta.max())))
     # rho non-increasing within a run unless the growing reset is enabled
     if not up.get("growing.reset_rho"):
         for i in range(1, len(df)):
@@ -347,13 +352,22 @@ def search(ctx):
         for sig, what in table_oracle(t, d, kw):
             ctx.fail(sig, what, {"seed": seed, "config": ss.describe(d)})
     ctx.cov["diagnostic_rows_checked"] = nrows
+    # fixed case (recorded finding): a starting point so large that the default rhobeg exceeds the 1e10 cap
+    import trace as tr
+    dfols = core.import_dfols()
+    kw = dict(maxfun=30, rhobeg=1e11, rhoend=1e3, user_params={"logging.save_diagnostic_info": True})
+    t = tr.traced_solve(dfols, lambda x: np.array([x[0] - 1e12, x[1] + 1e12, 1e6]), np.array([1e12, -1e12]), alarm=20, **kw)
+    ctx.seen(("c18fixed", "rhobeg-above-cap"))
+    if t.result is not None and t.result.diagnostic_info is not None:
+        for sig, what in table_oracle(t, {"user_params": dict(kw["user_params"]), "rhobeg": 1e11, "n": 2, "fixed": "rhobeg-above-cap"}, kw):
+            ctx.fail(sig, what, {"fixed": "x0 = (1e12, -1e12), rhobeg = 1e11 (= the default 0.1*max|x0|), maxfun = 30"})
 
 
 def replay(payload):
     dfols = core.import_dfols()
     rp = payload.get("replay", {})
     if "seed" not in rp:
-        print("replay names a broken obligation:", payload.get("broken"))
+        print("replay names a broken obligation or the fixed case:", payload.get("broken") or rp)
         return 1
     prob, kw, d, t = ss.gen_run(dfols, rp["seed"], allow=ALLOW, mutate_cfg=mutate, alarm=60.0)
     res = table_oracle(t, d, kw)
